@@ -379,3 +379,33 @@ def _field_read_stmt(b, local, field, depth=0):
             return (ds[0][0], ds[0][1])
         return None
     return _field_read_stmt(b, pl["l"], field, depth + 1)
+
+
+def loop_blocks_of_payload(body, raw_term):
+    """for the (un-normalised) payload term of a `for` loop: (block of the next() call, entry block of the loop body); None if not a loop payload"""
+    t = strip(raw_term)
+    while t[0] in ("field", "variant"):
+        t = strip(t[1])
+    if not (t[0] == "call" and t[1].endswith("Iterator::next") and len(t) > 4):
+        return None
+    hb = t[4]
+    blk = body.blocks.get(hb)
+    if blk is None or blk["term"]["k"] != "call" or blk["term"]["t"] is None:
+        return None
+    sw = body.blocks[blk["term"]["t"]]
+    if sw["term"]["k"] != "switch":
+        return None
+    for v, tgt in sw["term"]["targets"]:
+        if v == 1:
+            return hb, tgt
+    # Some may be the otherwise arm
+    if [v for v, _ in sw["term"]["targets"]] == [0]:
+        return hb, sw["term"]["otherwise"]
+    return None
+
+
+def must_pass_through(body, start, via, end):
+    """every path from block `start` to block `end` passes through block `via`"""
+    if start == via:
+        return True
+    return end not in body.fwd(start, cut_nodes=(via,))
